@@ -93,8 +93,9 @@ impl<'a> PrettyPrinter<'a> {
             && import_items_nodes.iter().all(|node| !is_comment_node(node))
             && check_import_name_duplication(&import_items_nodes)
         {
-            // Sort import items by their text representation.
-            import_items_nodes.sort_by_key(|&node| node.clone().into_text());
+            // Sort import items by their text as it is printed (`a.b as c`), not as it is spaced in
+            // the source: otherwise a second pass may order them differently.
+            import_items_nodes.sort_by_key(|&node| import_item_sort_key(node));
         }
         // Note that `ImportItem` does not implement `AstNode`.
         ListStylist::new(self)
@@ -170,4 +171,17 @@ fn check_import_name_duplication(import_items_nodes: &[&SyntaxNode]) -> bool {
         }
     }
     true // No duplicates found
+}
+
+/// The text of an import item with the spacing the formatter gives it.
+fn import_item_sort_key(node: &SyntaxNode) -> String {
+    let text = node.clone().into_text();
+    let mut key = String::with_capacity(text.len());
+    for word in text.split_whitespace() {
+        if !key.is_empty() && !key.ends_with('.') && !word.starts_with('.') {
+            key.push(' ');
+        }
+        key.push_str(word);
+    }
+    key
 }
